@@ -188,10 +188,17 @@ pub struct SchedReport {
 
 /// Voluntary switches per run are capped where a switch is expensive (parked OS threads); with coroutines the cap is
 /// only a backstop.
-#[cfg(all(feature = "coro", not(miri)))]
-pub const SWITCH_CAP: u64 = 50_000;
-#[cfg(not(all(feature = "coro", not(miri))))]
-pub const SWITCH_CAP: u64 = 600;
+pub const SWITCH_CAP_CORO: u64 = 50_000;
+pub const SWITCH_CAP_THREADS: u64 = 600;
+
+/// Which context-switch backend this process uses: coroutines when compiled in (feature `coro`, not under Miri) unless
+/// RFSIM_BACKEND=threads asks for parked OS threads. The thread backend is what confirms a violation before it is reported:
+/// with coroutines all simulated threads share one OS thread and therefore any `thread_local!` state of the code under test,
+/// which real threads would not.
+pub fn use_coroutines() -> bool {
+    static U: std::sync::OnceLock<bool> = std::sync::OnceLock::new();
+    *U.get_or_init(|| cfg!(all(feature = "coro", not(miri))) && std::env::var("RFSIM_BACKEND").map(|v| v != "threads").unwrap_or(true))
+}
 pub const SITE_OP: u32 = 20;
 pub const SITE_LOCK: u32 = 21;
 pub const SITE_UNLOCK: u32 = 22;
@@ -255,7 +262,15 @@ impl Sched {
             st.trace.push((0, first as u16));
         }
         #[cfg(all(feature = "coro", not(miri)))]
-        self.run_coroutines(bodies);
+        {
+            if use_coroutines() {
+                // a fresh OS thread per run: thread-local state of the code under test does not leak from one run into the next
+                let me = Arc::clone(self);
+                let _ = std::thread::Builder::new().stack_size(1 << 20).spawn(move || me.run_coroutines(bodies)).expect("spawn").join();
+            } else {
+                self.run_threads(bodies);
+            }
+        }
         #[cfg(not(all(feature = "coro", not(miri))))]
         self.run_threads(bodies);
         let st = self.st.lock().unwrap();
@@ -336,7 +351,6 @@ impl Sched {
         outer.put();
     }
 
-    #[cfg(not(all(feature = "coro", not(miri))))]
     fn run_threads(self: &Arc<Self>, bodies: Vec<Box<dyn FnOnce() + Send>>) {
         let mut handles = Vec::new();
         for (tid, body) in bodies.into_iter().enumerate() {
@@ -363,7 +377,6 @@ impl Sched {
         }
     }
 
-    #[cfg(not(all(feature = "coro", not(miri))))]
     fn wait_for_baton(&self, tid: usize) {
         let mut st = self.st.lock().unwrap();
         while st.current != tid {
@@ -372,25 +385,25 @@ impl Sched {
     }
 
     /// The baton has been handed to somebody else: wait until it comes back to `tid`.
-    #[cfg(not(all(feature = "coro", not(miri))))]
-    fn park<'a>(&'a self, tid: usize, mut st: std::sync::MutexGuard<'a, St>) -> std::sync::MutexGuard<'a, St> {
+    fn park<'a>(&'a self, tid: usize, st: std::sync::MutexGuard<'a, St>) -> std::sync::MutexGuard<'a, St> {
+        #[cfg(all(feature = "coro", not(miri)))]
+        if use_coroutines() {
+            drop(st);
+            loop {
+                let y = self.yielders[tid].load(std::sync::atomic::Ordering::Relaxed) as *const corosensei::Yielder<(), ()>;
+                // SAFETY: the pointer was stored by this very coroutine when it started and the yielder lives as long as it does
+                unsafe { (*y).suspend(()) };
+                let st = self.st.lock().unwrap();
+                if st.current == tid {
+                    return st;
+                }
+            }
+        }
+        let mut st = st;
         while st.current != tid {
             st = self.cvs[tid].wait(st).unwrap();
         }
         st
-    }
-    #[cfg(all(feature = "coro", not(miri)))]
-    fn park<'a>(&'a self, tid: usize, st: std::sync::MutexGuard<'a, St>) -> std::sync::MutexGuard<'a, St> {
-        drop(st);
-        loop {
-            let y = self.yielders[tid].load(std::sync::atomic::Ordering::Relaxed) as *const corosensei::Yielder<(), ()>;
-            // SAFETY: the pointer was stored by this very coroutine when it started and the yielder lives as long as it does
-            unsafe { (*y).suspend(()) };
-            let st = self.st.lock().unwrap();
-            if st.current == tid {
-                return st;
-            }
-        }
     }
 
     fn hand_over(&self, st: &mut St, from: usize, to: usize) {
@@ -611,7 +624,7 @@ impl St {
         let step = self.step;
         // a parked-thread hand-over costs tens of microseconds of wall clock: cap the voluntary switches per run
         // (the decision stays a pure function of the run's PRNG and step count)
-        if self.switches >= SWITCH_CAP && !matches!(self.policy, Policy::Replay(_)) {
+        if self.switches >= (if use_coroutines() { SWITCH_CAP_CORO } else { SWITCH_CAP_THREADS }) && !matches!(self.policy, Policy::Replay(_)) {
             return me;
         }
         match &self.policy {
